@@ -363,9 +363,6 @@ func (s Schema) Validate() error {
 				if c.Default != nil || c.AutoInc || t.InPK(c.Name) {
 					return fmt.Errorf("%s.%s: generated column with default/autoincrement/pk", t.Name, c.Name)
 				}
-				if strings.Contains(c.Type, ",") {
-					return fmt.Errorf("%s.%s: generated column type with comma", t.Name, c.Name)
-				}
 				for _, r := range c.Gen.Refs {
 					rc := t.Col(r)
 					if rc == nil || rc.Gen != nil || r == c.Name {
